@@ -10,7 +10,7 @@ from eqsig import im
 from eqsig import multiple
 
 from pbt import gen
-from pbt.core import clause, HarnessError
+from pbt.core import clause, enum_clause, HarnessError
 
 PROPERTY = "C18"
 CLAUSES = []
@@ -387,6 +387,12 @@ def _tm_build(case):
     lens = case["lens"]
     master = case["master"]
     nm = lens[master]
+    if case.get("head"):
+        # a triggered recording: `head` samples at rest (one constant level), then shaking with pairwise distinct values;
+        # samples outside the overlap hold the edge value
+        rs = np.random.RandomState(case["seed"])
+        m = np.concatenate([np.full(case["head"], 0.125), rs.permutation(nm - case["head"]).astype(float) * 0.25 + 1.0])
+        return [m.copy() if j == master else m[np.clip(np.arange(nj) - case["lags"][j], 0, nm - 1)] for j, nj in enumerate(lens)]
     total = max(lens) + 2 * steps
     rs = np.random.RandomState(case["seed"])
     pool = (len(lens) + 1) * total  # the record + enough independent values for every slave
@@ -504,6 +510,31 @@ def time_match(case, ctx):
                  "third-shortest": 0.06},
         min_nontrivial=0.5)
 def time_match_unequal(case, ctx):
+    _tm_check(case, ctx)
+
+
+def _tm_long_enum(tier, shard, nshards):
+    items = [{"n": 150000, "head": 136000, "lags": [4, 0, -7], "master": 1}]
+    if tier != "quick":
+        items += [{"n": 2 ** 17 + 300, "head": 2 ** 17 + 40, "lags": [0, 9, -1, 3], "master": 0},
+                  {"n": 2 ** 18 + 5, "head": 2 ** 18 - 4000, "lags": [-9, 0], "master": 1},
+                  {"n": 2 ** 16 + 11, "head": 2 ** 16 - 3, "lags": [5, -5, 0], "master": 2},
+                  {"n": 400000, "head": 0, "lags": [0, 6], "master": 0}]
+    for i, it in enumerate(items):
+        if i % nshards == shard:
+            yield dict(it, seed=17 + i)
+
+
+@enum_clause(CLAUSES, "time-match-long", _tm_long_enum,
+             rule="fixed long triggered recordings (65547..400000 samples at 1 kHz: a long stretch at rest, then shaking with pairwise "
+                  "distinct values), 2-4 signals, default search window (10), lags up to +-9",
+             oracle="reference model: as `time-match` (overlap coincides exactly, lengths unchanged, float64 ndarrays, master unchanged)",
+             exhaustive_note="the listed recordings", quick_shards=1)
+def time_match_long(c, ctx):
+    nsig = len(c["lags"])
+    case = {"nsig": nsig, "master": c["master"], "steps": None, "lens": [c["n"]] * nsig, "lags": list(c["lags"]), "kind": "perm",
+            "seed": c["seed"], "fill": "edge", "stype": "acc", "dt": 0.001, "head": c["head"]}
+    ctx.cls("head>2^17" if c["head"] > 2 ** 17 else "head<=2^17")
     _tm_check(case, ctx)
 
 
